@@ -217,7 +217,11 @@ def run(ctx: Ctx) -> None:
                 loose = [lp for g_ in cache.methods.values() for lp in g_.own_nodes() if isinstance(lp, ast.While)]
                 wit = witness_path(cfg, m, bad_path) if bad_path else []
                 if loose and not loops and not helper_calls:
-                    wit = [f"{cache.module.relpath}:{loose[0].lineno}: loop condition `{unparse(loose[0].test)}` is not `len(self.{mapping}) > self.{cap_attr}`: the bound can be exceeded"] + wit
+                    if unparse(loose[0].test).replace(" ", "") in (f"len(self.{mapping})>self.{cap_attr}", f"len(self.{mapping})>=self.{cap_attr}"):
+                        wit = [f"{cache.module.relpath}:{loose[0].lineno}: the body of the loop `while {unparse(loose[0].test)}` removes no entry of self.{mapping} (popitem, pop with a key, del): "
+                               f"`{unparse(loose[0].body[0], 50)}`"] + wit
+                    else:
+                        wit = [f"{cache.module.relpath}:{loose[0].lineno}: loop condition `{unparse(loose[0].test)}` is not `len(self.{mapping}) > self.{cap_attr}`: the bound can be exceeded"] + wit
                 rep.bad("C12.R2", m.qname, desc, m.loc(st), wit or ["no eviction loop in this method"], stmt_key(st), what="the cache can retain more objects than its capacity")
     rep.floor("C12.R2", n2, 1)
     # the configured bound is the capacity: wrapper.__init__(.., num) -> Cache(num) -> self.capacity = num
@@ -269,6 +273,10 @@ def run(ctx: Ctx) -> None:
     else:
         rep.ok("C12.R2", cache.qname, "the cache mapping is not touched outside the cache class", cache.module.relpath)
 
+    from .storerules import memory_readers_pure as _mrp
+    rep.rule("C12.R5", "the wrapped and the bare store answer alike because reading changes nothing: the reading methods of the memory store change none of its tables (a fetch that consumed the blob would be masked by the cache)")
+    _n_mrp = _mrp(ctx, "C12.R5")
+    rep.floor("C12.R5", _n_mrp, 3)
     n3 = passthrough_rules(ctx, "C12.R3")
     rep.floor("C12.R3", n3, 6)
 
@@ -454,8 +462,9 @@ def _is_evict_loop(w: ast.While, mapping: str, cap: Optional[str]) -> bool:
         return False
     if not (isinstance(r, ast.Attribute) and r.attr == cap and isinstance(r.value, ast.Name) and r.value.id == "self"):
         return False
+    # `popitem(..)` removes an entry; `pop` does only when it is given the key (`pop(last=False)` is a TypeError: nothing is removed)
     pops = [n for n in ast.walk(w) if isinstance(n, ast.Call) and isinstance(n.func, ast.Attribute) and n.func.attr in ("popitem", "pop")
-            and isinstance(n.func.value, ast.Attribute) and n.func.value.attr == mapping]
+            and isinstance(n.func.value, ast.Attribute) and n.func.value.attr == mapping and (n.func.attr == "popitem" or n.args)]
     dels = [n for n in ast.walk(w) if isinstance(n, ast.Delete)]
     return bool(pops or dels) and not any(isinstance(n, (ast.Break, ast.Return)) for n in ast.walk(w))
 
